@@ -846,7 +846,7 @@ def st_op(draw, family):
 
 @st.composite
 def st_case(draw):
-    if draw(st.integers(0, 9)) < 6:
+    if draw(st.integers(0, 9)) < 7:
         family, threads = PROGRAMS[draw(st.sampled_from(sorted(PROGRAMS)))]
     else:
         family = draw(st.sampled_from(FAMILY_NAMES))
@@ -887,7 +887,7 @@ def _prios(name):
 QUICK_CONFLICT = ["tree_load3", "tree_dump2", "tree_load_vs_dump", "tree_model_vs_list",
                   "tree_get_vs_load", "mutual_ends", "mutual_same", "chain_opt_vs_model",
                   "dictrec_load2", "plain_load2", "tree_deferred3", "tree_deferred_both",
-                  "mutual_deferred_ends", "chain_deferred2", "dictrec_deferred2", "btree_deferred2"]
+                  "mutual_deferred_ends", "chain_deferred2", "btree_deferred2"]
 THOROUGH_ALL = ["tree_load2", "tree_load3", "tree_dump2", "tree_load_vs_dump", "tree_model_vs_list",
                 "tree_get_vs_load", "mutual_ends", "mutual_same", "chain_opt_vs_model", "btree_load2",
                 "dictrec_load2", "plain_load2", "tree_deferred2", "tree_deferred_both", "mutual_deferred_ends",
@@ -1016,7 +1016,7 @@ def explore(ctx: runner.Ctx):  # noqa: C901
                                 f"points on conflict lines ({len(firsts)} first points)")
 
     _phase(ctx, "two-preemption sweeps")
-    ctx.given(st_case(), lambda case: check_case(ctx, case), ctx.budget(2000, 90000))
+    ctx.given(st_case(), lambda case: check_case(ctx, case), ctx.budget(1600, 80000))
     _phase(ctx, "PCT")
 
 
